@@ -42,6 +42,10 @@ def leapday_weather(job):
     shim.set_weather(fn)
 
 
+WIDE_TAGS = {"c08": ["crews", "workday", "weather", "freq", "months", "years", "sims"],
+             "c10": ["crews", "workday", "cost", "repairs", "freq", "months", "years", "sims", "economics"]}
+
+
 def shortage_shape(cfg):
     """make the configured crew_count of the routine component-level method smaller than LDAR-Sim's
     own estimate (same site generator as make_config)"""
@@ -98,6 +102,23 @@ def make_cfgs(ctx, n, flavour):
             shortage_shape(cfg)
         cfg["_verif_seed"] = seed
         cfgs.append(cfg)
+    # "wide" configurations: leaves and boundary values the base generator never produces (crew_count 0 /
+    # 3 / 5, max_workday 1 / 4 / 24, survey_time 1 / 480 / 600, time_between_sites [0] / [60, 0] / [240],
+    # weather envelopes, all-positive / all-zero cost blocks, repair cost [0] / [1, 1000], repair delay [0],
+    # surveys_per_year 24 / 52, single months, deployment years, 2-3 simulations, per-program economics)
+    tags = WIDE_TAGS[flavour]
+    n_wide = ctx.pick(2, 8)
+    for k in range(n_wide):
+        seed = ctx.rng.randrange(1 << 30)
+        rng = random.Random(seed)
+        wide = True if k == 0 else (tags if k % 2 == 1 else [tags[(k // 2 + j) % len(tags)] for j in range(3)])
+        w = W.make_config(rng, ndays=rng.choice([90, 120]) if ctx.quick else rng.choice([120, 200]), wide=wide,
+                          consider_weather=(flavour == "c08" and k % 2 == 0))
+        if k % 3 == 1 and "P_fix" not in [p["name"] for p in w["programs"]]:
+            w["programs"] = w["programs"] + [{"name": "P_fix", "methods": ["FIX", "OGI_FU2"]}]
+        w["_verif_seed"] = seed
+        w["_wide"] = True
+        cfgs.append(w)
     # a 1- or 2-day period (first day = last day: upfront, budget and weather on the very first day)
     seed = ctx.rng.randrange(1 << 30)
     rng = random.Random(seed)
@@ -171,6 +192,82 @@ def expected_budget(cfg, method):
     return 60 * w
 
 
+_DEFAULTS = {}
+
+
+def method_default(deployment_type, key):
+    """a leaf the configuration leaves out, as LDAR-Sim's default parameter files define it"""
+    import os
+    import yaml
+    from harness import shim
+
+    if deployment_type not in _DEFAULTS:
+        fn = "m_default_stationary.yml" if deployment_type == "stationary" else "m_default_mobile.yml"
+        with open(os.path.join(shim.REPO_SRC, "default_parameters", fn)) as fh:
+            _DEFAULTS[deployment_type] = yaml.safe_load(fh)
+    return _DEFAULTS[deployment_type].get(key)
+
+
+def cfg_envelope(cfg, method):
+    """[tLo, tHi, wLo, wHi, pLo, pHi] from the configuration (default parameter file when not given)"""
+    m = cfg["methods"][method]
+    env = m.get("weather_envelopes") or method_default(m["deployment_type"], "weather_envelopes")
+    return [float(env["temperature"][0]), float(env["temperature"][1]), float(env["wind"][0]), float(env["wind"][1]),
+            float(env["precipitation"][0]), float(env["precipitation"][1])]
+
+
+def cfg_travel_values(cfg, method):
+    """minutes a visit may be charged for travel: the rounded members of time_between_sites"""
+    m = cfg["methods"][method]
+    if m["deployment_type"] == "stationary":
+        return {0}
+    return {round(x) for x in m.get("t_bw_sites", [0])}
+
+
+def site_overrides(cfg, method):
+    """does the configuration carry per-site values for this method (survey time / cost / frequency)?"""
+    return any(str(c).startswith(method + "_") for c in cfg.get("site_extra_cols", {}))
+
+
+def cfg_site_cost(cfg, method, site):
+    """survey cost of a site for a per-site method, from the configuration"""
+    cols = cfg.get("site_extra_cols", {})
+    key = [c for c in cols if str(c).startswith(method + "_") and "cost" in str(c)]
+    if key:
+        v = cols[key[0]].get(str(site), cols[key[0]].get(site))
+        try:
+            return float(v) if v not in (None, "") else float(cfg["methods"][method]["cost"].get("per_site", 0) or 0)
+        except (TypeError, ValueError):
+            return None
+    return float(cfg["methods"][method]["cost"].get("per_site", 0) or 0)
+
+
+def cfg_crews(cfg, method):
+    """(crews the method has by its configuration, how it was derived).  stationary -> 1 pseudo crew;
+    crew_count > 0 -> crew_count; crew_count 0 -> LDAR-Sim's own documented estimate: 1 for a follow-up
+    method, else ceil(n_sites / (sites per crew-day x days between surveys)) with the method's workday,
+    mean time between sites, survey time and surveys per year.  None when per-site overrides make the
+    estimate depend on values this oracle does not read (counted as skipped)."""
+    import math
+
+    m = cfg["methods"][method]
+    if m["deployment_type"] == "stationary":
+        return 1, "stationary"
+    c = m.get("crew_count", 0)
+    if c > 0:
+        return c, "configured"
+    if m.get("is_follow_up"):
+        return 1, "estimate:follow-up"
+    if site_overrides(cfg, method):
+        return None, "estimate:per-site-overrides"
+    tb = m.get("t_bw_sites", [0])
+    avg_travel = sum(tb) / len(tb)
+    work = m.get("max_workday", 24) * 60 - avg_travel
+    per_day = work / (m["survey_time"] + avg_travel)
+    days = 365 / m["surveys_per_year"]
+    return math.ceil(len(cfg["sites"]) / (per_day * days)), "estimate"
+
+
 def expected_select(cost):
     pd = cost.get("per_day", 0)
     ps = cost.get("per_site")
@@ -198,17 +295,19 @@ def index_events(events):
     return deploy, surveys, wx, plancost, repairs
 
 
-def survey_workable(events):
-    """{id(survey event): bool} -- was the weather at the site's cell inside the method's envelope
-    (cube values and envelope from the "wx" event; True when the method does not consider weather).
-    Independent of the code's own `site_visit` flag."""
+def survey_workable(events, cfg):
+    """{id(survey event): bool} -- was the weather at the site's cell inside the method's envelope.
+    Envelope and the "weather considered" switch are read from the CONFIGURATION (default parameter
+    file when the method gives no envelope); the cube values come from the "wx" event (read from the
+    weather arrays by the wrapper at its own index).  Independent of the code's `site_visit` flag."""
     pending = {}
     out = {}
+    considered = bool(cfg.get("consider_weather"))
     for e in events:
         if e[0] == "wx":
             pending.setdefault((e[1], e[2], e[3]), []).append(e)
         elif e[0] == "survey":
-            if not e[15]:
+            if not considered:
                 out[id(e)] = True
                 continue
             lst = pending.get((e[1], e[2], e[3]), [])
@@ -216,7 +315,8 @@ def survey_workable(events):
             if w is None or w[5] is None:
                 out[id(e)] = None
             else:
-                (_, _, _, _, verdict, t, wi, pr, env) = w
+                (_, _, _, _, verdict, t, wi, pr, _env_of_object) = w
+                env = cfg_envelope(cfg, e[2])
                 out[id(e)] = env[0] <= t <= env[1] and env[2] <= wi <= env[3] and env[4] <= pr <= env[5]
     return out
 
@@ -241,9 +341,16 @@ def oracle_c08(ctx, cfg, prog, events, violate):
         dep = deploy.get((day, method))
         budget = expected_budget(cfg, method)
         m = cfg["methods"][method]
-        n_crews = 1 if m["deployment_type"] == "stationary" else m["crew_count"]
+        n_crews, how = cfg_crews(cfg, method)
+        ctx.count("wholerun:crews-from-" + how)
+        if n_crews is None:
+            ctx.count("skipped:crew-count(estimate with per-site overrides)")
         per_crew = {}
         wx_used = {}
+        considered = bool(cfg.get("consider_weather"))
+        env = cfg_envelope(cfg, method)
+        travel_ok = cfg_travel_values(cfg, method)
+        s_cfg = 0 if m["deployment_type"] == "stationary" else (None if site_overrides(cfg, method) else m.get("survey_time"))
         for e in evs:
             (_, _, _, site, crew, r0, r1, s_time, travel, p0, p1, complete, in_prog, visited, last, wchk) = e
             n_visits += 1
@@ -257,13 +364,22 @@ def oracle_c08(ctx, cfg, prog, events, violate):
             info = {"prog": prog, "day": day, "method": method, "site": site, "event": e, "budget": budget}
             if r0 < 0 or r1 < 0:
                 violate("C08:wholerun:negative-remaining", "a crew's remaining minutes are negative", info)
-            if not (0 <= crew < n_crews):
+            if n_crews is not None and not (0 <= crew < n_crews):
                 violate("C08:wholerun:more-crews-than-available", "crew id outside the method's crew count", info)
+            # trace conformance against the configuration: survey time, travel time drawn, weather switch
+            if s_cfg is None:
+                ctx.count("skipped:survey-time(per-site overrides)")
+            elif s_time != s_cfg:
+                violate("C08:wholerun:survey-time-not-as-configured", "the survey time a visit works with is not the configured survey_time", info)
+            if travel != 0 and travel not in travel_ok:
+                violate("C08:wholerun:travel-time-not-from-configuration", "the travel time charged is not (the rounding of) a configured time_between_sites value", info)
+            if bool(wchk) != considered:
+                violate("C08:wholerun:weather-switch-not-as-configured", "the method considers weather differently from the configured consider_weather", info)
             today = p1 - p0
             st["spent"] += travel + today
             if complete or today > 0:
                 st["home"] = travel
-            if wchk:
+            if considered:
                 lst = wx.get((day, method, site), [])
                 i = wx_used.get(site, 0)
                 w = lst[i] if i < len(lst) else None
@@ -271,7 +387,9 @@ def oracle_c08(ctx, cfg, prog, events, violate):
                 if w is None or w[5] is None:
                     ctx.count("wholerun:wx-event-missing")
                 else:
-                    (_, _, _, _, verdict, t, wi, pr, env) = w
+                    (_, _, _, _, verdict, t, wi, pr, env_obj) = w
+                    if env_obj is not None and [float(x) for x in env_obj] != env:
+                        violate("C08:wholerun:envelope-not-as-configured", "the method's weather envelope differs from the configured one", info)
                     inside = env[0] <= t <= env[1] and env[2] <= wi <= env[3] and env[4] <= pr <= env[5]
                     ctx.count("wholerun:visit-weather-" + ("ok" if inside else "bad"))
                     ctx.nontrivial.add(("wr-wx", inside, t < env[0] or t > env[1], wi > env[3], pr > env[5]))
@@ -291,22 +409,25 @@ def oracle_c08(ctx, cfg, prog, events, violate):
             if st["spent"] + st["home"] > budget:
                 violate("C08:wholerun:crew-minutes-exceed-budget", "travel + survey minutes + trip home of a crew exceed the day budget", info)
             ctx.nontrivial.add(("wr-crew", method, st["spent"] + st["home"] == budget, len(evs) > 1))
-        if len(per_crew) > n_crews or (dep is not None and dep[10] > n_crews):
+        if n_crews is not None and (len(per_crew) > n_crews or (dep is not None and dep[10] > n_crews)):
             violate("C08:wholerun:more-crews-than-available", "more crews deployed than the method has",
                     {"prog": prog, "day": day, "method": method})
     # crews the method was built with (as it reports on every deploy_crews) vs the configured crew_count
     flagged = set()
     for (day, method), dep in deploy.items():
         m = cfg["methods"][method]
-        want = 1 if m["deployment_type"] == "stationary" else m.get("crew_count", 0)
-        if want > 0 and method not in flagged and (dep[9] != want or dep[10] > want):
+        want, how = cfg_crews(cfg, method)
+        if want is None:
+            continue
+        if method not in flagged and (dep[9] != want or dep[10] > max(want, 0)):
             flagged.add(method)
             violate("C08:wholerun:method-has-other-than-configured-crews",
-                    "a method runs with a number of crews different from its configured crew_count",
-                    {"prog": prog, "day": day, "method": method, "configured": want, "method_reports": dep[9], "deployed": dep[10]})
-        if want > 0 and dep[8] is not None:
+                    "a method runs with a number of crews different from what its configuration gives it (crew_count; "
+                    "LDAR-Sim's documented estimate when crew_count is 0)",
+                    {"prog": prog, "day": day, "method": method, "configured": want, "derived": how, "method_reports": dep[9], "deployed": dep[10]})
+        if dep[8] is not None:
             minutes = sum(e[8] + (e[10] - e[9]) for e in surveys.get((day, method), []))
-            if minutes > want * expected_budget(cfg, method):
+            if minutes > max(want, 0) * expected_budget(cfg, method):
                 violate("C08:wholerun:crew-minutes-exceed-configured-crews-x-budget",
                         "crew-minutes of a day exceed configured crews x day budget",
                         {"prog": prog, "day": day, "method": method, "configured": want, "minutes": minutes})
@@ -335,7 +456,7 @@ def requeue_check(ctx, cfg, prog, events, violate):
     planned again later.  A request that was put back has priority class 2; a request issued after a
     later completion of another site is class 3, so if such a newer request is planned on some later
     day while the unworkable site never is again, the request was lost."""
-    workable = survey_workable(events)
+    workable = survey_workable(events, cfg)
     plans = {}      # method -> [(day, set(sites))]
     completed = {}  # method -> [(day, site)]
     for e in events:
@@ -391,9 +512,18 @@ def run_c08(ctx):
                 ctx.evaluations += nv
             ctx.traces += 1
             ctx.count("wholerun:configs")
+            count_wide(ctx, cfg)
     finally:
         for res in results:
             res.cleanup()
+
+
+def count_wide(ctx, cfg):
+    if cfg.get("_wide"):
+        ctx.count("wholerun:wide-configs")
+        for a in cfg.get("wide_applied", []):
+            ctx.count("wide:" + a["tag"] + ":" + ".".join(str(x) for x in a["path"][-2:]) + "=" + str(a["value"])[:40])
+            ctx.nontrivial.add(("wide", a["tag"], str(a["path"][-1]), str(a["value"])[:30]))
 
 
 def replay_c08(ctx, inp):
@@ -431,7 +561,7 @@ def check_columns():
 def oracle_c10(ctx, cfg, res, prog, sim, events, violate):
     col_cost, col_rep, col_nat, col_meth = check_columns()
     deploy, surveys, wx, plancost, repairs = index_events(events)
-    workable = survey_workable(events)
+    workable = survey_workable(events, cfg)
     ts = res.timeseries(prog, sim)
     if ts is None:
         ctx.note("no timeseries for %s/%s" % (prog, sim))
@@ -452,14 +582,25 @@ def oracle_c10(ctx, cfg, res, prog, sim, events, violate):
             if (dep[11], dep[12]) != (ctype, unit):
                 violate("C10:wholerun:wrong-cost-type", "cost type / unit cost not as configured", info)
             stationary = m["deployment_type"] == "stationary"
-            n_crews = 1 if stationary else m["crew_count"]
+            n_crews, crews_how = cfg_crews(cfg, method)
+            if n_crews is None:
+                ctx.count("skipped:upfront(crew estimate with per-site overrides)")
             evs = surveys.get((d, method), [])
             if ctype == "site":
                 pc = plancost.get((d, method), {})
                 exp = 0.0
                 for e in evs:
                     if e[11]:   # survey complete
-                        sc = pc.get(e[3], 0.0)
+                        # the site's survey cost by the configuration: the per-site override column of the
+                        # sites file if there is one, else the method's per_site cost (site totals are
+                        # conserved by the propagation to equipment groups)
+                        sc = cfg_site_cost(cfg, method, e[3])
+                        if sc is None:
+                            ctx.count("skipped:site-cost(override column not understood)")
+                            sc = pc.get(e[3], 0.0)
+                        elif e[3] in pc and pc[e[3]] != sc:
+                            violate("C10:wholerun:site-cost-not-as-configured",
+                                    "a site's survey cost differs from what the configuration gives it", dict(info, site=e[3], configured=sc, used=pc[e[3]]))
                         exp += sc if sc != 0 else unit
                 n_done = sum(1 for e in evs if e[11])
                 ctx.nontrivial.add(("wr-site", method, min(n_done, 3), any(e[11] and e[14] for e in evs),
@@ -492,7 +633,7 @@ def oracle_c10(ctx, cfg, res, prog, sim, events, violate):
                     info["expected"] = exp
                     violate("C10:per_day:not-per-deployed-crew", "whole run: per-day cost != unit cost x crews that visited a site", info)
             col = _f(row.get(col_meth.format(method=method)))
-            exp_col = dep[4] + (m["cost"].get("upfront", 0) * n_crews if d == 0 else 0)
+            exp_col = dep[4] + (m["cost"].get("upfront", 0) * (n_crews if n_crews is not None else dep[9]) if d == 0 else 0)
             if col != exp_col:
                 info["expected_column"] = exp_col
                 sig = ("C10:upfront:first-day-not-upfront-times-crews" if d == 0 else
@@ -582,6 +723,7 @@ def run_c10(ctx):
                     ctx.broke("whole-run oracle C10 could not read the run (seed %s)" % cfg["_verif_seed"],
                               "%s: %s\n%s" % (type(e).__name__, e, traceback.format_exc()[-800:]))
             ctx.count("wholerun:mode-" + ("pool" if cfg.get("_mode") else "debug"))
+            count_wide(ctx, cfg)
             ctx.traces += 1
             ctx.count("wholerun:configs")
     finally:
